@@ -6,7 +6,9 @@ cd /verif
 J="${1:-8}"; G="${2:-*}"
 ./setup.sh >/dev/null || exit 2
 # snapshot of the checker binary: a rebuild while this runs must not change what is evaluated
-export CMVERIFY=$(mktemp /tmp/cmverify.XXXXXX); cp .bin/cmverify "$CMVERIFY"; chmod +x "$CMVERIFY"; trap 'rm -f "$CMVERIFY"' EXIT
+export CMVERIFY=$(mktemp /tmp/cmverify.XXXXXX); cp .bin/cmverify "$CMVERIFY"; chmod +x "$CMVERIFY"; # a build cache of its own, removed at the end: hundreds of scratch worktree builds grow the shared cache by tens of GB
+export GOCACHE=$(mktemp -d /tmp/gocache.XXXXXX)
+trap 'rm -f "$CMVERIFY"; rm -rf "$GOCACHE"' EXIT
 ls -d seeded/$G/ | xargs -P "$J" -I{} sh -c './seed_par.sh {} 2>/dev/null | tail -1' > /tmp/seed_recheck.jsonl
 python3 - <<'PY'
 import json,os,subprocess
